@@ -1,6 +1,8 @@
 (* Correspondence for C03.
-   params   = [kind (0 value, 1 duration); nil-spec flag]
-   input    = 30 [bounds...] the specification; then 31 [bits] RecordValue,
+   params   = [kind (0 value, 1 duration); nil-spec flag; configured default buckets of the root
+              (0 none, 1 value, 2 duration)]
+   input    = 30 [bounds...] the specification; 39 [bounds...] the configured default buckets (if
+              any); then 31 [bits] RecordValue,
               32 [ns] RecordDuration, 33 [] one report pass
    observed = 34 [lo; hi] per pair of tally.BucketPairs(spec);
               38 [lo; hi] per bucket handle allocated from a cached reporter (may be absent);
@@ -26,14 +28,16 @@ Definition deliv_ev (t : Z * Z * Z) : ev := Ev 35 [fst (fst t); snd (fst t); snd
 
 Definition expected (c : gcase) : list ev * list ev * list ev :=
   match gparams c, ginput c with
-  | [kz; nilz], spec_ev :: ops =>
+  | kz :: nilz :: dzs, spec_ev :: ops =>
       let k := kind_of kz in
       let spec := ei spec_ev in
-      (* a nil specification: BucketPairs gives the single value bucket, the scope
-         falls back to its default duration buckets *)
+      let dz := match dzs with d :: _ => d | [] => 0 end in
+      let defs := flat_map (fun e => if ek e =? 39 then ei e else []) ops in
+      (* a nil specification: BucketPairs gives the single value bucket, the scope falls back to the
+         root's configured default buckets (of their own kind), else to the built-in duration buckets *)
       let pk := if nilz =? 0 then k else KValue in
-      let hk := if nilz =? 0 then k else KDuration in
-      let hspec := if nilz =? 0 then spec else default_scope_buckets_ns in
+      let hk := if nilz =? 0 then k else if dz =? 1 then KValue else KDuration in
+      let hspec := if nilz =? 0 then spec else if dz =? 0 then default_scope_buckets_ns else defs in
       let ps := map (pair_ev 34) (pairs pk (if nilz =? 0 then spec else [])) in
       let al := map (pair_ev 38) (pairs hk hspec) in
       let '(_, ds) := hrun (hnew hk hspec) (flat_map op_of_ev ops) in
